@@ -47,6 +47,7 @@ CONTAINERS = {
     "gen_C08_fista.py": r"operator\(\)",
     "gen_stopchain.py": r"operator\(\)",
     "gen_C07_alm.py": r"operator\(\)",
+    "gen_ocp.py": r"operator\(\)",
 }
 
 # statement sites inside containers: (translator, file suffix, unit name, regex on the first statement[, regex on the last statement])
@@ -60,6 +61,8 @@ SITES = [
     *[("gen_kernels.py", f, "site:gamma_of_L", r"curr->γ\s*=\s*params\.") for f in ("inner/panoc.tpp", "inner/zerofpr.tpp", "inner/pantr.tpp", "inner/panoc-ocp.tpp")],
     ("gen_kernels.py", "inner/pantr.tpp", "site:radius", r"(?<![%s>.])Δ\s*=[^;]*compute_updated_radius" % IDC),
     ("gen_kernels.py", "inner/pantr.tpp", "site:accept", r"\baccept_candidate\s*=[^;]*ρ"),
+    # (gen_ocp.py reads the lambdas mut_qrk / mut_q_N of panoc-ocp.tpp — found automatically — and checks that every call of
+    #  eval.backward passes them; the call sites are a constraint, not translated text, so they are no units)
     # gen_C08_fista.py
     ("gen_C08_fista.py", "inner/fista.tpp", "site:bt_while", r"\bwhile\s*\([^;{}]*qub_violated\("),
     ("gen_C08_fista.py", "inner/fista.tpp", "site:momentum", r"\breal_t\s+t_new\s*=", r"\bif\s*\(\s*params\.disable_acceleration"),
@@ -82,6 +85,10 @@ TABLES = [
 WAIVERS = [
     (r"gen_prox\.py\|.*box-constr-problem\.hpp\|fn eval_prox_grad_step_box_l1(_scal)?@\d+\|dup .*duplicate `eval_prox_grad_step_box_l1_impl\(",
      "equivalent mutant: the call recomputes its outputs (x̂, p) from unchanged inputs, calling it twice changes nothing"),
+    (r"gen_ocp\.py\|.*ocp-vars\.hpp\|fn forward@\d+\|swap .*swap `auto c[kN] = vars\.ck\(storage, [tN]\);` and `if \(vars\.nh(_N)?\(\) > 0\)",
+     "equivalent mutant: `ck` / `cN` is a view into `storage` (no copy, no effect) that the following if statement does not use"),
+    (r"gen_sparsity\.py\|.*sparsity-conversions\.hpp\|fn convert_values@\d+\|swap .*swap `(to\.setZero\(\)|from\(work\));` and `auto &&[Tf] = (to|work)\.reshaped\(",
+     "equivalent mutant: `T` / `f` is a reshaped view (a reference) of the vector; declaring it before or after the vector is written is the same program"),
 ]
 
 # files a translator opens but which are not sources to mutate
@@ -125,6 +132,47 @@ def mask(src):
             blank(i + 1, j); i = j + 1
         else:
             i += 1
+    return "".join(out)
+
+
+# macros with a known value in the build the checks use (harness/Makefile, g++ 12); other conditionals keep both branches
+PP_VALUES = {"ALPAQA_HAVE_COO_CSC_CONVERSIONS": False, "EIGEN_RUNTIME_NO_MALLOC": False, "ALPAQA_WITH_QUAD_PRECISION": False,
+             "__cpp_lib_to_chars": True, "NDEBUG": True}
+
+
+def mask_preprocessor(S, M):
+    """preprocessor directive lines blanked; text of conditional branches that are known not to be compiled blanked as well"""
+    out = list(M)
+    pos, stack = 0, []          # stack of [active?, known?, any branch taken]
+    for line in S.split("\n"):
+        end = pos + len(line)
+        st = M[pos:end].strip()
+        if st.startswith("#"):
+            m = re.match(r"#\s*(ifdef|ifndef|if|elif|else|endif)\b\s*(.*)", st)
+            if m:
+                d, arg = m.group(1), m.group(2).strip()
+                if d in ("ifdef", "ifndef", "if"):
+                    name = re.sub(r"^defined\s*\(?\s*(\w+)\s*\)?$", r"\1", arg)
+                    neg = name.startswith("!")
+                    name = name.lstrip("! ").strip()
+                    if name in PP_VALUES:
+                        val = PP_VALUES[name] != (d == "ifndef") != neg
+                        stack.append([val, True, val])
+                    else:
+                        stack.append([True, False, True])
+                elif d in ("elif", "else") and stack:
+                    top = stack[-1]
+                    if top[1]:
+                        top[0] = (not top[2]) and d == "else"
+                        top[2] = top[2] or top[0]
+                elif d == "endif" and stack:
+                    stack.pop()
+            for k in range(pos, end):
+                out[k] = " "
+        elif any(not t[0] for t in stack):
+            for k in range(pos, end):
+                out[k] = " "
+        pos = end + 1
     return "".join(out)
 
 
@@ -354,7 +402,8 @@ def spread(items, k):
 
 
 VAR = re.compile(r"(?<![%s.>])((?:this->)?[^\W\d][%s]*(?:(?:\.|->)[^\W\d][%s]*)*)(?!\s*[(<%s])" % (IDC, IDC, IDC, IDC))
-DECL = re.compile(r"^\s*(?:static\s+|constexpr\s+)*(const\s+)?(real_t|auto|bool|index_t|length_t|unsigned|int|vec|mat|size_t|double|long)\b\s*&?\s*([^\W\d][%s]*)\s*(=|\{|\(|;)" % IDC)
+DECL = re.compile(r"^\s*(?:static\s+|constexpr\s+|mutable\s+|typename\s+)*(const\s+)?(?!(?:return|throw|else|case|goto|new|delete|using|typedef|co_return)\b)"
+                  r"((?:[^\W\d][%s]*::)*[^\W\d][%s]*(?:<[^;=(){}]*>)?(?:::[^\W\d][%s]*)*)(?:\s*(?:&&?|\*)\s*|\s+)(?:const\s+)?([^\W\d][%s]*)\s*(=(?!=)|\{|\(|;)" % (IDC, IDC, IDC, IDC))
 ASSIGN = re.compile(r"^\s*(\*?[^\W\d][%s.>-]*(?:\([^()]*\))?)\s*(=|\+=|-=|\*=|/=|\|=)(?!=)" % IDC)
 
 
@@ -763,7 +812,7 @@ def discover(t, rels, pool, base, verbose):
         S = open(os.path.join(REPO, rel), encoding="utf-8").read()
         if not rel.endswith((".hpp", ".tpp", ".cpp", ".h", ".ipp", ".hh", ".cc")):
             continue
-        M = mask(S)
+        M = mask_preprocessor(S, mask(S))
         partner = match_table(M)
         B = blocks_of(M, partner)
         info[rel] = (S, M, partner, B)
